@@ -48,6 +48,7 @@ class Typer:
         for n in index_names:
             self.env[n] = "I"
         self.attr = {}
+        self.funcs = {}
 
     def t(self, e):
         if isinstance(e, ast.Constant):
@@ -112,8 +113,12 @@ class Typer:
         if isinstance(e, ast.Call):
             fn = call_name(e) or ""
             args = [self.t(a) for a in e.args]
+            if fn in self.funcs:
+                return self.funcs[fn]
+            if fn in ("np.isclose", "np.allclose", "numpy.isclose", "math.isclose"):
+                return "I"
             if fn in ABSF and len(args) == 1:
-                return {"D": "A", "S": "AS", "A": "A", "AS": "AS", "I": "I"}.get(args[0])
+                return {"D": "A", "S": "AS", "A": "A", "AS": "AS", "I": "I", "V": "V"}.get(args[0])
             if fn in ("np.diff", "numpy.diff") and args:
                 return {"S": "D", "I": "I"}.get(args[0])
             if fn in ("np.where", "np.nonzero", "np.flatnonzero", "np.argmax", "np.argmin", "len", "np.arange",
@@ -125,7 +130,10 @@ class Typer:
             if fn in ("max", "_max", "min", "np.maximum", "np.minimum") and len(args) == 2:
                 known = [a for a in args if a is not None]
                 if known and all(a == known[0] for a in known):
-                    return known[0]
+                    # the larger of two signed quantities becomes minus the smaller under negation: not covariant
+                    return "V" if known[0] in ("S", "D", "V") else known[0]
+                if "V" in known:
+                    return "V"
                 return None
             if isinstance(e.func, ast.Attribute) and e.func.attr in ("any", "all", "sum", "astype", "copy"):
                 b = self.t(e.func.value)
@@ -156,8 +164,15 @@ FULL_OK = {("A", "A"), ("DD", "Z"), ("I", "I"), ("I", "Z"), ("Z", "I"), ("Z", "D
 NEG_EXTRA = {("AS", "AS")}
 
 
+TOLERANCE_FUNCS = ("np.isclose", "np.allclose", "numpy.isclose", "math.isclose", "np.round", "np.around", "round", "np.rint",
+                   "np.floor", "np.ceil", "np.trunc", "int", "np.fix", "np.sign")
+SAMPLE_TYPES = ("S", "D", "A", "AS", "DD", "V")
+
+
 def classify(l, r, op, group):
     pair = (l, r)
+    if "V" in pair:
+        return "variant"
     if pair in FULL_OK:
         return "invariant"
     if pair in (("D", "Z"), ("Z", "D")):
@@ -204,6 +219,23 @@ def _type_function(ctx, fi, body, typer, group, what, skip=()):
         for s in walk_stmts(body):
             typer.assign(s)
     anti = []
+    unknown = None
+    # decisions taken by library predicates instead of comparison operators
+    for s in walk_stmts(body):
+        if isinstance(s, (ast.FunctionDef, ast.ClassDef)):
+            continue
+        for c in calls_in(s):
+            fn = call_name(c) or ""
+            at = [typer.t(a) for a in c.args]
+            if fn in TOLERANCE_FUNCS and fn != "np.sign" and group == "affine" and any(a in SAMPLE_TYPES for a in at):
+                ctx.violated(fi, s, "%s: %s applies an absolute tolerance / rounding to signal data (%s); the decision changes when "
+                             "the signal is scaled, so turning points are lost or invented for small-valued signals" %
+                             (what, norm_text(c), ", ".join(str(a) for a in at)), text=norm_text(c))
+            elif fn in ("np.where", "np.logical_or", "np.logical_and", "np.logical_not", "np.flatnonzero", "np.nonzero"):
+                bad = [a for a, t_ in zip(c.args, at) if t_ != "I"]
+                if bad:
+                    unknown = unknown or "%s: mask %s passed to %s is not built from typed comparisons" % (
+                        fi.key, norm_text(bad[0]), fn)
     for s, c in comparisons(body):
         l, r = typer.t(c.left), typer.t(c.comparators[0])
         k = classify(l, r, c.ops[0], group)
@@ -216,11 +248,13 @@ def _type_function(ctx, fi, body, typer, group, what, skip=()):
         elif k == "unknown":
             if any(c is x for x in skip):
                 continue
-            raise AnalysisError("%s: cannot type comparison %s (%s vs %s)" % (fi.key, norm_text(c), l, r))
+            unknown = unknown or "%s: cannot type comparison %s (%s vs %s)" % (fi.key, norm_text(c), l, r)
         else:
             ctx.violated(fi, s, "%s: comparison %s relates %s with %s; that is not invariant under %s of the signal, so the "
                          "detected cycles would change with the transformation" %
                          (what, norm_text(c), l, r, "positive affine maps and negation" if group == "affine" else "negation"))
+    if unknown:
+        raise AnalysisError(unknown)
     return anti, n
 
 
@@ -230,12 +264,19 @@ MIRROR = {ast.Gt: ast.Lt, ast.Lt: ast.Gt, ast.GtE: ast.LtE, ast.LtE: ast.GtE}
 def _r1_typing(ctx):
     prog = ctx.prog
     ctx.rule("R-C03-1", floor=12, what="every data-dependent comparison is invariant under the property's group; outputs covariant; front guards are a mirror pair")
-    # ---- find_turns (incl. nested helpers)
+    type_find_turns(ctx)
+    _r1_rest(ctx)
+
+
+def type_find_turns(ctx):
+    """find_turns (incl. nested helpers): shared with C02 (R-C02-4)."""
+    prog = ctx.prog
     ft = prog.func(GEN + ":find_turns")
     ty = Typer(sample_names=("samples",))
     bodies = list(ft.node.body)
     nested = [n for n in ft.node.body if isinstance(n, ast.FunctionDef)]
     for nf in nested:
+        rets = [s_ for s_ in walk_stmts(nf.body) if isinstance(s_, ast.Return) and s_.value is not None]
         t2 = Typer(sample_names=("samples",))
         if nf.name == "plateau_turns" or "diffs" in [a.arg for a in nf.args.args]:
             t2.env["diffs"] = "D"
@@ -244,6 +285,9 @@ def _r1_typing(ctx):
             t2.env["nans"] = "I"
         fi_n = prog.functions.get(ft.key + "." + nf.name)
         anti, n = _type_function(ctx, fi_n or ft, nf.body, t2, "affine", "find_turns." + nf.name)
+        rt = {t2.t(r_.value) for r_ in rets if not isinstance(r_.value, ast.Tuple)}
+        if len(rt) == 1 and None not in rt:
+            ty.funcs[nf.name] = rt.pop()
         for s, c in anti:
             ctx.violated(fi_n or ft, s, "find_turns.%s: comparison %s is sign dependent (not invariant under negation)"
                          % (nf.name, norm_text(c)))
@@ -266,6 +310,10 @@ def _r1_typing(ctx):
                      (norm_text(ret.value), ty.t(ret.value.elts[0]) if isinstance(ret.value, ast.Tuple) else None,
                       ty.t(ret.value.elts[1]) if isinstance(ret.value, ast.Tuple) else None))
 
+
+
+def _r1_rest(ctx):
+    prog = ctx.prog
     # ---- kernels
     for k in kernels(prog):
         ty = Typer(sample_names=(k.turns,), index_names=(k.turns_index, k.sp, k.counter, k.rec, "len_turns",
@@ -561,20 +609,49 @@ def _r3_labels(ctx):
             return all(k in ("default", "const") and not v for k, v in vs)
         return False
 
+    def int_addressed(fi2):
+        """Parameters of an in-package function that are subscripted with something that is neither a slice nor a boolean
+        mask: for a pandas Series such an access is label based."""
+        masks = set()
+        for s_ in walk_stmts(fi2.node.body):
+            if isinstance(s_, ast.Assign):
+                for t_, v_ in tuple_assign_pairs(s_):
+                    if isinstance(t_, ast.Name) and (isinstance(v_, (ast.Compare,)) or (isinstance(v_, ast.Call) and
+                                                     (call_name(v_) or "") in ("pd.isna", "np.isnan", "pd.isnull"))):
+                        masks.add(t_.id)
+        out = set()
+        for n_ in ast.walk(fi2.node):
+            if isinstance(n_, ast.Subscript) and isinstance(n_.value, ast.Name) and n_.value.id in fi2.params and \
+                    isinstance(n_.ctx, ast.Load):
+                sl = n_.slice
+                if isinstance(sl, ast.Slice) or (isinstance(sl, ast.Tuple) and all(isinstance(e, ast.Slice) for e in sl.elts)):
+                    continue
+                if isinstance(sl, ast.Compare) or (isinstance(sl, ast.UnaryOp) and isinstance(sl.op, ast.Invert)) or \
+                        (isinstance(sl, ast.Name) and sl.id in masks):
+                    continue
+                out.add(n_.value.id)
+        return out
+
     def scan(fi, body, labelled, pv, what):
-        found = 0
+        """Forward scan; ``labelled`` (names that may still hold the caller's labelled object) is updated in place; the
+        two arms of a branch are joined by union."""
         for s in body:
             if isinstance(s, ast.If):
                 if infeasible(s.test, pv):
                     ctx.holds(fi, s, "%s: branch `if %s` pruned: no caller can enable it" % (what, norm_text(s.test)))
-                    found += scan(fi, s.orelse, set(labelled), pv, what)
+                    scan(fi, s.orelse, labelled, pv, what)
                     continue
-                found += scan(fi, s.body, set(labelled), pv, what)
-                found += scan(fi, s.orelse, set(labelled), pv, what)
+                a, b = set(labelled), set(labelled)
+                scan(fi, s.body, a, pv, what)
+                scan(fi, s.orelse, b, pv, what)
+                labelled.clear()
+                labelled.update(a | b)
                 continue
             if isinstance(s, (ast.For, ast.While, ast.With, ast.Try)):
                 for sub in ("body", "orelse", "finalbody"):
-                    found += scan(fi, getattr(s, sub, []) or [], labelled, pv, what)
+                    a = set(labelled)
+                    scan(fi, getattr(s, sub, []) or [], a, pv, what)
+                    labelled.update(a)
                 continue
             for n in ast.walk(s):
                 if isinstance(n, ast.Subscript) and isinstance(n.value, ast.Name) and n.value.id in labelled and \
@@ -583,7 +660,19 @@ def _r3_labels(ctx):
                     if isinstance(c, int) and not isinstance(c, bool):
                         ctx.violated(fi, s, "%s: %s addresses a possibly labelled input by integer label; convert with "
                                      "np.asarray first" % (what, norm_text(n)))
-                        found += 1
+                if isinstance(n, ast.Call):
+                    for key in prog.resolve_call(fi, n):
+                        callee = prog.functions.get(key)
+                        if callee is None or callee.key == helper.key:
+                            continue
+                        ps = [q for q in callee.params if q != "self"]
+                        need = int_addressed(callee)
+                        for i, a_ in enumerate(n.args):
+                            if isinstance(a_, ast.Name) and a_.id in labelled and i < len(ps) and ps[i] in need:
+                                ctx.violated(fi, s, "%s: %s hands a possibly labelled input (pandas Series) to %s, which addresses "
+                                             "its parameter %s by integer position arrays; for a Series that access is label "
+                                             "based. Convert with np.asarray / np.concatenate on every path first" %
+                                             (what, norm_text(n), callee.name, ps[i]), text="labelled into " + callee.name)
             if isinstance(s, ast.Assign):
                 for t in s.targets:
                     if isinstance(t, ast.Name):
@@ -596,10 +685,12 @@ def _r3_labels(ctx):
                             labelled.discard(t.id)
                         elif isinstance(v, ast.Name) and v.id in labelled:
                             labelled.add(t.id)
-                        elif t.id in labelled and not (isinstance(v, ast.Subscript) and isinstance(v.value, ast.Name)
-                                                       and v.value.id in labelled):
+                        elif isinstance(v, ast.IfExp) and any(isinstance(x, ast.Name) and x.id in labelled for x in (v.body, v.orelse)):
+                            labelled.add(t.id)
+                        elif isinstance(v, ast.Subscript) and isinstance(v.value, ast.Name) and v.value.id in labelled:
+                            labelled.add(t.id)
+                        elif t.id in labelled:
                             labelled.discard(t.id)
-        return found
     n = 0
     for ci in dets:
         p = ci.methods.get("process")
@@ -630,6 +721,45 @@ FP = "src/pylife/stress/rainflow/fourpoint.py"
 
 def variants():
     out = []
+
+    def no_concat_when_no_tail(tree):
+        f = find_func(tree, "AbstractDetector._new_turns")
+        for i, st in enumerate(f.body):
+            if isinstance(st, ast.Assign) and isinstance(st.value, ast.Call) and call_name(st.value) == "np.concatenate" and \
+                    isinstance(st.targets[0], ast.Name):
+                t = st.targets[0].id
+                new = parse_stmt("if len(self._sample_tail) > 0:\n    %s = %s\nelse:\n    %s = samples" %
+                                 (t, ast.unparse(st.value), t))
+                f.body[i] = new
+                return True
+        return False
+    out.append(witness("samples not copied when no tail is pending", "src/pylife/stress/rainflow/general.py",
+                       no_concat_when_no_tail, "R-C03-3"))
+
+    def isclose_plateau(tree):
+        f = find_func(tree, "find_turns")
+        for n in ast.walk(f):
+            if isinstance(n, ast.Compare) and isinstance(n.ops[0], ast.Eq) and isinstance(n.comparators[0], ast.Constant) \
+                    and n.comparators[0].value == 0:
+                return replace_node(n, parse_expr("np.isclose(%s, 0.0)" % ast.unparse(n.left)))
+        return False
+    out.append(witness("plateau detection with np.isclose", "src/pylife/stress/rainflow/general.py", isclose_plateau, "R-C03-1"))
+
+    def abs_of_max(tree):
+        f = find_func(tree, "FKMDetector.process")
+        for n in ast.walk(f):
+            if isinstance(n, ast.BoolOp) and isinstance(n.op, ast.And) and "max_turn" in ast.unparse(n) and "abs" in ast.unparse(n):
+                return replace_node(n, parse_expr("np.abs(max(last0, last1)) < max_turn"))
+        return False
+    out.append(witness("FKM re-check uses abs of max instead of max of abs", "src/pylife/stress/rainflow/fkm.py", abs_of_max, "R-C03-1"))
+
+    def max_of_abs(tree):
+        f = find_func(tree, "FKMDetector.process")
+        for n in ast.walk(f):
+            if isinstance(n, ast.BoolOp) and isinstance(n.op, ast.And) and "max_turn" in ast.unparse(n) and "abs" in ast.unparse(n):
+                return replace_node(n, parse_expr("max(np.abs(last0), np.abs(last1)) < max_turn"))
+        return False
+    out.append(twin("FKM re-check written as max of abs", "src/pylife/stress/rainflow/fkm.py", max_of_abs))
 
     def abs_dropped(tree):
         f = find_func(tree, "fourpoint_loop")
